@@ -32,6 +32,17 @@ type ConnScript struct {
 	ConnectionTokens []string `json:"connection_tokens,omitempty"`
 	// Burst (HTTP/2 only): all requests leave in the connection's first flight and are handled at the same time
 	Burst bool `json:"burst,omitempty"`
+	// Verbose: verbose logging of the fingerprint package is on; ViaField: the injector list reaches the handler through
+	// its exported field after construction. Neither has any say in a header value.
+	Verbose  bool `json:"verbose,omitempty"`
+	ViaField bool `json:"via_field,omitempty"`
+}
+
+// ProxyOptsFor: the proxy configuration a connection script asks for.
+func ProxyOptsFor(s ConnScript) ProxyOpts {
+	o := DefaultProxyOpts(s.Custom)
+	o.VerboseFingerprint, o.InjectorsViaField = s.Verbose, s.ViaField
+	return o
 }
 
 // ccsAppender adds a change_cipher_spec record to the first write that carries a handshake record.
